@@ -216,7 +216,11 @@ impl TimeZone {
                 // b. Let possibleEpochNanoseconds be
                 // GetNamedTimeZoneEpochNanoseconds(parseResult.[[Name]],
                 // isoDateTime).
-                provider.get_named_tz_epoch_nanoseconds(identifier, iso)?
+                // NOTE: GetNamedTimeZoneEpochNanoseconds returns a list sorted in ascending
+                // order; the provider trait does not promise one, so it is established here.
+                let mut possible = provider.get_named_tz_epoch_nanoseconds(identifier, iso)?;
+                possible.sort();
+                possible
             }
         };
         // 4. For each value epochNanoseconds in possibleEpochNanoseconds, do
